@@ -903,7 +903,7 @@ theorem xcmpBody_binary_rejected (xc : XcmpCore) (fs : Fs) (c : XcmpCmd) (hb : c
     | error l => simp [resultOfRun, stdoutOfAction]
     | exn => simp [resultOfRun]
     | ok img =>
-      by_cases hw : fs.canWrite out = true <;> simp [resultOfRun, hw, hc] at h ⊢
+      by_cases hw : fs.canWrite out = true <;> simp [resultOfRun, hw, hc, stdoutOfAction] at h ⊢
 
 /-! ### xrun -/
 
@@ -939,7 +939,7 @@ theorem xrunBody_failed (xc : XcmpCore) (sim : SimCore) (fs : Fs) (c : RunCmd)
     | ok img =>
       by_cases hw : fs.canWrite "a.bin" = true
       · exact absurd ⟨hr, hc, hw⟩ (h img src)
-      · simp [hw]
+      · simp [hw, stdoutOfAction]
 
 /-- Sequential composition of two tool runs in the shell sense (`a && b`, keeping `a`'s result
     when it fails). -/
